@@ -72,6 +72,8 @@ class Budget(Exception):
 
 
 class Interp:
+    _depth = 0
+
     def __init__(self, facts, max_states=60000, max_depth=16):
         self.f = facts
         self.n_vid = 0
@@ -90,6 +92,8 @@ class Interp:
         self.events = []
         self.undecided_loops = {}
         self.generic_callees = {}
+        self.trunc_of = {}      # source id -> ids obtained from it by a possibly truncating cast
+        self.dec_of = {}        # x -> ids defined as x.saturating_sub(1) / x - 1
 
     # ---- ids ---------------------------------------------------------------------------
     def vid(self):
@@ -234,6 +238,90 @@ class Interp:
             raise Infeasible()
         st.iv[vid] = (l, h)
 
+    def reach(self, st, a, b, need_strict):
+        """Is there a chain a (<|<=|==) ... b in the relation store (with at least one strict step if need_strict)?
+        Steps through definitions: v = sat_sub(x, 1) / x - 1  gives  v < x when x >= 1;  v = sat_sub(x, y) gives v <= x."""
+        seen = {}
+        work = [(a, False)]
+        steps = 0
+        while work:
+            cur, strict = work.pop()
+            if seen.get(cur, None) is True or (cur in seen and not strict):
+                continue
+            seen[cur] = strict or seen.get(cur, False)
+            steps += 1
+            if steps > 400:
+                return False
+            if cur == b and (strict or not need_strict):
+                return True
+            # interval step: cur <= hi(cur) < lo(b)
+            lc, hc = self.rng(st, cur)
+            lb, hb = self.rng(st, b)
+            if hc < lb or (hc <= lb and (strict or not need_strict)):
+                return True
+            for r in st.rel:
+                if r[0] == 'lt' and r[1] == cur:
+                    work.append((r[2], True))
+                elif r[0] == 'le' and r[1] == cur:
+                    work.append((r[2], strict))
+                elif r[0] == 'eq' and r[1] == cur:
+                    work.append((r[2], strict))
+                elif r[0] == 'eq' and r[2] == cur:
+                    work.append((r[1], strict))
+            d = self.idef.get(cur)
+            if d and d[0] == 'trunc':
+                tl, th = INT_RANGE.get(d[2], (0, 0))
+                ls, hs = self.rng(st, d[1])
+                if ls >= tl and hs <= th:
+                    work.append((d[1], strict))        # the cast turned out lossless: same mathematical value
+            for tv in self.trunc_of.get(cur, ()):
+                dd = self.idef.get(tv)
+                if dd:
+                    tl, th = INT_RANGE.get(dd[2], (0, 0))
+                    ls, hs = self.rng(st, cur)
+                    if ls >= tl and hs <= th:
+                        work.append((tv, strict))
+            if d:
+                if d[0] == 'sat_sub':
+                    x, k = d[1], d[2]
+                    lk = self.rng(st, k)[0]
+                    lx = self.rng(st, x)[0]
+                    work.append((x, strict or (lk >= 1 and lx >= 1)))
+                elif d[0] == 'arith' and d[1] == 'Sub' and self.rng(st, d[3])[0] >= 0:
+                    work.append((d[2], strict or self.rng(st, d[3])[0] >= 1))
+        return False
+
+    def upper_set(self, st, a, limit=200):
+        """{v: strict} for every id v with a <= v (a < v if strict) derivable from relation edges and definitions"""
+        seen = {}
+        work = [(a, False)]
+        rel = st.rel
+        while work and len(seen) < limit:
+            cur, strict = work.pop()
+            if cur != a and not strict and (('ne', a, cur) in rel or ('ne', cur, a) in rel):
+                strict = True           # a <= cur and a != cur
+            if cur in seen and (seen[cur] or not strict):
+                continue
+            seen[cur] = strict
+            if strict:
+                for t in self.dec_of.get(cur, ()):
+                    work.append((t, False))     # a < cur  =>  a <= cur - 1
+            for r in st.rel:
+                if r[0] == 'lt' and r[1] == cur:
+                    work.append((r[2], True))
+                elif r[0] in ('le', 'eq') and r[1] == cur:
+                    work.append((r[2], strict))
+                elif r[0] == 'eq' and r[2] == cur:
+                    work.append((r[1], strict))
+            d = self.idef.get(cur)
+            if d:
+                if d[0] == 'sat_sub':
+                    work.append((d[1], strict or (self.rng(st, d[2])[0] >= 1 and self.rng(st, d[1])[0] >= 1)))
+                elif d[0] == 'arith' and d[1] == 'Sub' and self.rng(st, d[3])[0] >= 0:
+                    work.append((d[2], strict or self.rng(st, d[3])[0] >= 1))
+        seen.pop(a, None)
+        return seen
+
     def prove_lt(self, st, a, b):
         la, ha = self.rng(st, a)
         lb, hb = self.rng(st, b)
@@ -243,6 +331,16 @@ class Interp:
             return False
         if ('lt', a, b) in st.rel:
             return True
+        if self.reach(st, a, b, True):
+            return True
+        # a <= b and a != b
+        if (('ne', a, b) in st.rel or ('ne', b, a) in st.rel) and self._depth < 3:
+            self._depth += 1
+            try:
+                if self.prove_le(st, a, b):
+                    return True
+            finally:
+                self._depth -= 1
         for r in st.rel:
             if r[0] == 'lt' and r[1] == a and (('le', r[2], b) in st.rel or ('lt', r[2], b) in st.rel or r[2] == b):
                 return True
@@ -258,6 +356,8 @@ class Interp:
         if ha <= lb:
             return True
         if ('le', a, b) in st.rel or ('lt', a, b) in st.rel or ('eq', a, b) in st.rel or ('eq', b, a) in st.rel:
+            return True
+        if self.reach(st, a, b, False):
             return True
         for r in st.rel:
             if r[0] in ('le', 'lt') and r[1] == a and (('le', r[2], b) in st.rel or ('lt', r[2], b) in st.rel):
@@ -307,6 +407,8 @@ class Interp:
             la, ha = self.rng(st, a)
             lb, hb = self.rng(st, b)
             if a == b or (la == ha == lb == hb):
+                return True
+            if self.reach(st, a, b, False) and self.reach(st, b, a, False):
                 return True
             if self.prove_ne(st, a, b):
                 return False
@@ -435,6 +537,23 @@ class Interp:
         rv = self.join_val(out, s1, v1, s2, v2, memo) if v1 is not None and v2 is not None else None
         return out, rv
 
+    def join_candidates(self, out, s1, s2):
+        """ids of integer cells that are the same value on both sides (few: sizes, bounds, configuration fields)"""
+        key = (id(s1), id(s2))
+        if getattr(self, '_jc_key', None) != key:
+            cands = []
+            seen = set()
+            for c, v in s1.cells.items():
+                if v is not None and v[0] in ('int', 'buf'):
+                    w = s2.cells.get(c)
+                    vid = v[2] if v[0] == 'int' else v[1]
+                    if w is not None and w[0] == v[0] and (w[2] if w[0] == 'int' else w[1]) == vid and vid not in seen:
+                        seen.add(vid)
+                        cands.append(vid)
+            self._jc_key = key
+            self._jc = cands[-64:]
+        return self._jc
+
     def join_cell(self, out, s1, c1, s2, c2, memo):
         if c1 == c2:
             if c1 not in out.cells or out.cells[c1] is None:
@@ -467,6 +586,24 @@ class Interp:
             l2, h2 = self.rng(s2, b[2])
             n = self.vid()
             out.iv[n] = (min(l1, l2), max(h1, h2))
+            # relations that hold on both sides towards ids that survive the join are kept for the joined value
+            u1 = self.upper_set(s1, a[2])
+            if u1:
+                u2 = self.upper_set(s2, b[2])
+                cands = set(u1) | set(u2)
+                for X in cands:
+                    if X == a[2] or X == b[2]:
+                        continue
+                    # X must denote the same value on both sides (an id is a fixed mathematical value, so it does)
+                    st1 = u1.get(X)
+                    st2 = u2.get(X)
+                    if st1 is None:
+                        st1 = True if self.rng(s1, a[2])[1] < self.rng(s1, X)[0] else (False if self.rng(s1, a[2])[1] <= self.rng(s1, X)[0] else None)
+                    if st2 is None:
+                        st2 = True if self.rng(s2, b[2])[1] < self.rng(s2, X)[0] else (False if self.rng(s2, b[2])[1] <= self.rng(s2, X)[0] else None)
+                    if st1 is None or st2 is None:
+                        continue
+                    out.rel.add(('lt' if (st1 and st2) else 'le', n, X))
             return ('int', a[1], n)
         if ka == 'bool':
             n = self.vid()
